@@ -1,4 +1,5 @@
 import CLModel.Proofs.Primary
+import CLModel.Proofs.Guards
 import Mathlib.Tactic.Linarith
 import Mathlib.Tactic.NormNum
 /-!
@@ -181,5 +182,31 @@ example : (0 : ℤ) < 5 ∧ (5 : ℤ) * (1 - 2 ^ Gen.largeEStartValueExp) < 0 :=
   have : (2 : ℤ) ^ 596 ≥ 2 := le_trans (by norm_num) (pow_le_pow_right₀ (by norm_num : (1 : ℤ) ≤ 2) (by norm_num : 1 ≤ 596))
   generalize (2 : ℤ) ^ 596 = X at *
   linarith
+
+/-! ## the verifier's guards, regenerated from `verifier.rs` on every run -/
+
+/-- **the range guard on the response for `e` in the Rust source is the model's condition**:
+`proof.e.is_negative() || proof.e.num_bits() > LARGE_ETILDE + 1`, as extracted by the
+translator (`Gen.eRangeGuard`), evaluated on the sign and bit length of any integer, is
+`e < 0 ∨ e ≥ 2^(LARGE_ETILDE+1)`.  Type-checks only while the source has that shape: `&&` for
+`||`, another bound or a dropped clause break it. -/
+theorem e_range_guard_from_source (e : Int) :
+    evalGuard Gen.eRangeGuard [signOf e, numBits e]
+      = decide (e < 0 ∨ e ≥ 2 ^ (Gen.LARGE_ETILDE + 1)) := eRange_shape_spec e
+
+/-- … hence the model's `verifyEquality` IS "source guard, then the recomputation" -/
+theorem verify_equality_source_guard {G : Type} (o : GroupOps G) (pk : PubKey G) (p : EqProof G)
+    (c : Int) (un : List String) :
+    verifyEquality o pk p c un
+      = if evalGuard Gen.eRangeGuard [signOf p.e, numBits p.e] = true then .err
+        else verifyEqualityCore o pk p c un := by
+  rw [e_range_guard_from_source]
+  unfold verifyEquality
+  simp only [decide_eq_true_eq]
+
+/-- **the sub-proof count guard in the source rejects exactly unequal counts**
+(`proof.proofs.len() != credentials.len()`; `>` for `!=` breaks it) -/
+theorem proof_len_guard_from_source (a b : Nat) :
+    evalGuard Gen.proofLenGuard [(a : Int), (b : Int)] = (a != b) := proofLen_shape_spec a b
 
 end CL.C02
